@@ -204,6 +204,15 @@ func (b *Balloon) RefreshVersion() error {
 	return nil
 }
 
+// RebuildHyperCache recomputes the in-memory levels of the hyper tree from the
+// persisted tiles. It must be called whenever the store has been modified behind
+// the balloon's back (e.g. after loading a state transfer).
+func (b *Balloon) RebuildHyperCache() {
+	b.Lock()
+	defer b.Unlock()
+	b.hyperTree.RebuildCache()
+}
+
 // Add funcion inserts an event hash into the history and hyper trees, creates a snapshot
 // with these insertions results, and returns the snapshot along with certain mutations to
 // do to the persistent storage.
